@@ -84,6 +84,55 @@ fn main() {
         .unwrap()
       );
     }
+    "build-world" => {
+      // debugging aid: build the world stored in a replay file's detail and
+      // print the serialised graph (optionally segment at given roots)
+      let Some(path) = args.get(2) else { usage() };
+      let v: serde_json::Value =
+        serde_json::from_str(&std::fs::read_to_string(path).unwrap()).unwrap();
+      let d = &v["detail"];
+      let wv = if d.get("world").is_some() { &d["world"] } else { &d["case"]["world"] };
+      let sv = if d.get("sem").is_some() { &d["sem"] } else { &d["case"]["sem"] };
+      let mut world: world::World = serde_json::from_value(wv.clone()).unwrap();
+      let mut sem: run::SemOpts = serde_json::from_value(sv.clone()).unwrap();
+      if let Some(k) = flag("--kind") {
+        sem.kind = k.parse().unwrap();
+      }
+      if let Some(r) = flag("--roots") {
+        world.roots = r.split(',').map(|s| s.to_string()).collect();
+      }
+      let seg: Option<Vec<String>> =
+        flag("--segment").map(|r| r.split(',').map(|s| s.to_string()).collect());
+      let r = checks::common::build_fresh(
+        &world,
+        &Default::default(),
+        &sem,
+        &Default::default(),
+        tape::Tape::replay(Default::default()),
+        0,
+        true,
+        move |session, report, _| {
+          let mut out = String::new();
+          for l in &report.loads {
+            out.push_str(&format!("LOAD {} sum={:?} -> {}\n", l.id.label(), l.checksum, l.answer));
+          }
+          if let Some(seg) = seg {
+            let roots: Vec<deno_graph::ModuleSpecifier> = seg
+              .iter()
+              .map(|s| deno_graph::ModuleSpecifier::parse(s).unwrap())
+              .collect();
+            let g = session.graph.segment(&roots);
+            out.push_str("SEGMENT ");
+            out.push_str(&serde_json::to_string_pretty(&g).unwrap());
+          }
+          out
+        },
+      )
+      .unwrap()
+      .0;
+      println!("{}", serde_json::to_string_pretty(&r.obs["serialized"]).unwrap());
+      println!("{}", r.extra);
+    }
     "selftest" => {
       std::process::exit(selftest(&specs, seed));
     }
